@@ -125,6 +125,26 @@ fn multinomial(rng: &mut fastrand::Rng, probs: &[f32]) -> Option<usize> {
     None
 }
 
+/// Verification hooks (only compiled with `--cfg rten_verif`).
+#[cfg(rten_verif)]
+#[doc(hidden)]
+pub mod verif_hooks {
+    use rten_simd::SimdOp;
+    use rten_vecmath::Softmax;
+
+    /// The private `multinomial` sampling loop.
+    pub fn multinomial(rng: &mut fastrand::Rng, probs: &[f32]) -> Option<usize> {
+        super::multinomial(rng, probs)
+    }
+
+    /// Probabilities exactly as `Multinomial::sample` computes them.
+    pub fn softmax_probs(logits: &[f32]) -> Vec<f32> {
+        let mut scratch: Vec<f32> = Vec::with_capacity(logits.len());
+        let out = &mut scratch.spare_capacity_mut()[..logits.len()];
+        Softmax::new(logits, out).dispatch().to_vec()
+    }
+}
+
 #[cfg(test)]
 mod tests {
     use rten_base::num::AsUsize;
